@@ -108,8 +108,16 @@ fn with_server<T: Send + 'static>(
 
 /// Level 1: the adaptor as a byte stream. Returns bytes read before close and the result of the read after close.
 fn adaptor_reads(script: Vec<Msg>, total: usize, read_size: usize) -> Result<(Vec<u8>, Result<usize, String>), String> {
+    adaptor_reads_after(script, total, read_size, 0)
+}
+
+/// `delay_ms`: the client starts reading only after the server has had time to send everything
+fn adaptor_reads_after(script: Vec<Msg>, total: usize, read_size: usize, delay_ms: u64) -> Result<(Vec<u8>, Result<usize, String>), String> {
     EXPECT_FROM_CLIENT.with(|c| c.set(0));
     let r = with_server(script, move |mut ws, close| Box::pin(async move {
+        if delay_ms > 0 {
+            tokio::time::sleep(Duration::from_millis(delay_ms)).await;
+        }
         let mut got = vec![];
         let mut buf = vec![0u8; read_size];
         while got.len() < total {
@@ -285,6 +293,31 @@ pub fn sites(tier: Tier) -> Vec<Site> {
                 let replay = json!({"site": "adaptor-interleaved", "index": i, "script": desc});
                 let stream: Vec<u8> = (0..6).map(|i| 0x61 + i as u8).collect();
                 judge_adaptor(acc, i, guard(|| adaptor_reads(script, 6, size)), &stream, &desc, replay);
+            }));
+    }
+    // 1b'. "any number" of non-binary messages: 300 in a row (all text, all ping, alternating), in front of,
+    // between and behind the binary messages, already queued when the client reads and while it reads
+    {
+        sites.push(Site::new("adaptor-storm", 3 * 3 * 2 * 2,
+            "300 consecutive non-binary messages {text, ping, alternating} x position {front, middle, end} x read size {3, 64} x {client reads at once, client reads after everything was sent}",
+            move |i, acc| {
+                let kind = i % 3;
+                let posn = (i / 3) % 3;
+                let size = if (i / 9) % 2 == 0 { 3 } else { 64 };
+                let delay = if (i / 18) % 2 == 0 { 0 } else { 40 };
+                let storm: Vec<Msg> = (0..300).map(|j| match kind { 0 => Msg::Text, 1 => Msg::Ping, _ => if j % 2 == 0 { Msg::Text } else { Msg::Ping } }).collect();
+                let a = Msg::Bin(b"abc".to_vec());
+                let b = Msg::Bin(b"def".to_vec());
+                let mut script = vec![];
+                match posn {
+                    0 => { script.extend(storm); script.push(a); script.push(b); },
+                    1 => { script.push(a); script.extend(storm); script.push(b); },
+                    _ => { script.push(a); script.push(b); script.extend(storm); },
+                }
+                acc.eval();
+                let desc = format!("300 x {} at {} read size {size} delay {delay} ms", ["text", "ping", "text/ping"][kind as usize], ["front", "middle", "end"][posn as usize]);
+                let replay = json!({"site": "adaptor-storm", "index": i, "script": desc});
+                judge_adaptor(acc, i, guard(|| adaptor_reads_after(script, 6, size, delay)), b"abcdef", &desc, replay);
             }));
     }
     // 1c. messages larger than the adaptor's 1020-byte buffer
